@@ -109,7 +109,9 @@ func (app *App) checkRecovery() {
 
 	if isSlavePermanentlyLost(sstatus, mgtids) {
 		rp, err := localNode.GetReplicaStatus()
-		if err == nil {
+		if err == nil && rp == nil {
+			app.logger.Error().Msg("recovery: replica status is gone")
+		} else if err == nil {
 			if rp.GetLastError() != "" {
 				app.logger.Error().Msgf("recovery: local node %s has error: %s", localNode.Host(), rp.GetLastError())
 			}
